@@ -1003,7 +1003,7 @@ theorem template_typed (ann : Ann) (s0 : St) (hS : StoreInv s0) (hcl : StoL s0.o
   | bareArray =>
     mvcgen [template]
     all_goals (try subst_vars)
-    exact ⟨Step.refl _ hS hcl, rfl, fun c hc => by simp [Val.child] at hc⟩
+    exact Step.refl _ hS hcl
 
 theorem regNew_step {s0 s1 s : St} {x : RVal} (h : RegNew s0 s1 x) (hv : ∃ v, x = .val v) (hst : Step s1 s) (hS1 : StoreInv s1) :
     RegNew s0 s x := by
